@@ -282,7 +282,9 @@ fn datetime(value: Value) -> Result<Value> {
             .parse::<DateTime<Utc>>()
             .map(Value::DateTime)
             .map_err(|_| Error::invalid_cast(value, "Value::DateTime")),
-        Value::Int(val) => DateTime::from_timestamp(val as i64, 0)
+        Value::Int(val) => i64::try_from(val)
+            .ok()
+            .and_then(|val| DateTime::from_timestamp(val, 0))
             .map(Value::DateTime)
             .ok_or(Error::invalid_cast(value, "Value::DateTime")),
         Value::DateTime(_) => Ok(value),
@@ -294,7 +296,9 @@ fn datetime(value: Value) -> Result<Value> {
 
 fn duration(value: Value) -> Result<Value> {
     match value.clone() {
-        Value::Int(val) => TimeDelta::try_seconds(val as i64)
+        Value::Int(val) => i64::try_from(val)
+            .ok()
+            .and_then(TimeDelta::try_seconds)
             .map(Value::Duration)
             .ok_or(Error::invalid_cast(value, "Value::Duration")),
         Value::Duration(_) => Ok(value),
@@ -612,7 +616,9 @@ fn month(value: Value) -> Result<Value> {
 
 fn week(value: Value) -> Result<Value> {
     match &value {
-        Value::Int(inner) => TimeDelta::try_weeks(*inner as i64)
+        Value::Int(inner) => i64::try_from(*inner)
+            .ok()
+            .and_then(TimeDelta::try_weeks)
             .map(Value::Duration)
             .ok_or(Error::value_out_of_bounds(value, "week")),
         Value::Duration(value) => Ok(Value::Int(value.num_weeks() as i128)),
@@ -624,7 +630,9 @@ fn week(value: Value) -> Result<Value> {
 
 fn day(value: Value) -> Result<Value> {
     match &value {
-        Value::Int(inner) => TimeDelta::try_days(*inner as i64)
+        Value::Int(inner) => i64::try_from(*inner)
+            .ok()
+            .and_then(TimeDelta::try_days)
             .map(Value::Duration)
             .ok_or(Error::value_out_of_bounds(value, "day")),
         Value::DateTime(inner) => Ok(Value::Int(inner.day() as i128)),
@@ -637,7 +645,9 @@ fn day(value: Value) -> Result<Value> {
 
 fn hour(value: Value) -> Result<Value> {
     match &value {
-        Value::Int(inner) => TimeDelta::try_hours(*inner as i64)
+        Value::Int(inner) => i64::try_from(*inner)
+            .ok()
+            .and_then(TimeDelta::try_hours)
             .map(Value::Duration)
             .ok_or(Error::value_out_of_bounds(value, "hour")),
         Value::DateTime(inner) => Ok(Value::Int(inner.hour() as i128)),
@@ -650,7 +660,9 @@ fn hour(value: Value) -> Result<Value> {
 
 fn minute(value: Value) -> Result<Value> {
     match &value {
-        Value::Int(inner) => TimeDelta::try_minutes(*inner as i64)
+        Value::Int(inner) => i64::try_from(*inner)
+            .ok()
+            .and_then(TimeDelta::try_minutes)
             .map(Value::Duration)
             .ok_or(Error::value_out_of_bounds(value, "minute")),
         Value::DateTime(inner) => Ok(Value::Int(inner.minute() as i128)),
@@ -663,7 +675,9 @@ fn minute(value: Value) -> Result<Value> {
 
 fn second(value: Value) -> Result<Value> {
     match &value {
-        Value::Int(inner) => TimeDelta::try_seconds(*inner as i64)
+        Value::Int(inner) => i64::try_from(*inner)
+            .ok()
+            .and_then(TimeDelta::try_seconds)
             .map(Value::Duration)
             .ok_or(Error::value_out_of_bounds(value, "second")),
         Value::DateTime(inner) => Ok(Value::Int(inner.second() as i128)),
